@@ -134,3 +134,62 @@ func TestRefCoordsVsTextbook(t *testing.T) {
 		fmt.Printf("n=%d: %d DAGs, rounds differ in %d; witnesses strongly seeing fewer than a supermajority of the previous round (coordinates): %d of %d; fame differs textbook/coordinates: %d; votes against a decision of the same round: %d\n", n, dags, roundDiff, under, wits, fameDiff, dissent)
 	}
 }
+
+func TestRefLeaveBoundaryConflict(t *testing.T) {
+	for _, n := range []int{5, 6} {
+		r := NewRNG(uint64(900 + n))
+		found, weak := 0, 0
+		st := time.Now()
+		for k := 0; k < 20; k++ {
+			R := 3 + r.Intn(3)
+			small := make([]int, n-1)
+			for i := range small {
+				small[i] = i
+			}
+			eval := func(p []synthPlay) *refFame {
+				d := newRefDag(n)
+				d.deep = true
+				d.members = func(rr int) []int {
+					if rr >= R {
+						return small
+					}
+					return d.all
+				}
+				heads := make([]int, n)
+				for i := range heads {
+					heads[i] = -1
+				}
+				for _, pl := range p {
+					op := -1
+					if pl.other >= 0 {
+						op = heads[pl.other]
+						if op < 0 {
+							continue
+						}
+					}
+					if heads[pl.creator] < 0 && op < 0 && len(d.byCI[pl.creator]) > 0 {
+						continue
+					}
+					heads[pl.creator] = d.add(pl.creator, heads[pl.creator], op, "")
+				}
+				return d.computeFame(4, nil)
+			}
+			cur := gossipPlays(r, n, 50+12*n)
+			best := eval(cur)
+			for it := 0; it < 15000 && len(best.conflicts) == 0; it++ {
+				cand := mutatePlays(r, n, n, cur)
+				f := eval(cand)
+				if f.score >= best.score {
+					cur, best = cand, f
+				}
+			}
+			if len(best.weak) > 0 {
+				weak++
+			}
+			if len(best.conflicts) > 0 {
+				found++
+			}
+		}
+		fmt.Printf("leave boundary n=%d: weak decisions in %d/20, conflicting decisions in %d/20 searches; %.0f ms/search\n", n, weak, found, float64(time.Since(st).Milliseconds())/20)
+	}
+}
